@@ -19,7 +19,7 @@ def oracle_scan(casefile, limit=20):
         n += 1
         dist[op] = dist.get(op, 0) + 1
         msg = spec_c07.check(op, args, res)
-        if msg is not None and len(fails) < limit:
+        if msg is not None and keep_failure(fails, msg):
             fails.append({"line": lineno, "op": op, "args": args[:400], "impl": res[:200], "why": msg})
     return n, fails, dist
 
